@@ -3,5 +3,6 @@ CONSTANTS
   Ids = {"a", "b", "c", "d", "e", "f"}
   Exps = {0, 1, 2}
   TrackZeroSet = {TRUE}
-INVARIANTS ESTypeOK Refines SameResult HeapShape
-PROPERTIES AddIdempotent Shrinks
+INVARIANTS ESTypeOK Refines HeapShape
+VIEW View
+ACTION_CONSTRAINT SameResultStep
